@@ -290,5 +290,47 @@ class C13BuiltinConditions(Bounded):
                 exp = ({"c", "d", "t", "e"} - want) if neg else want
                 if got != exp:
                     fail("di3-" + cond["type"], f"detection item condition {cond}{' negated' if neg else ''} on a rule with case-sensitive / timestamp-part values: item applied to {got if isinstance(got, str) else sorted(got)}, expected {sorted(exp)}", [cond, neg])
-        return {"evaluations": ev, "distinct_nontrivial": nontriv, "failures": fails, "failure_counts": seen, "bound": "rule_attribute: 10 attributes x 2..6 values x 8 operators; 23 other rule conditions, 15 detection-item and 11 field-name conditions, each plain and negated",
+        # ---- processing_item_applied as a field-name condition, for every place a field name lives: detection items, the fields list, and
+        # group-by / alias targets / condition fields of a correlation rule. Step 1 maps m1, m2 (id `map`); step 2 prefixes what the
+        # condition (plain or negated) selects. A name was "handled by map" iff it is m1 or m2.
+        from sigma.rule import SigmaRule
+        from sigma.correlations import SigmaCorrelationRule
+        import json as _json, os as _os
+        kfile = _os.path.join(_os.path.dirname(_os.path.dirname(_os.path.abspath(__file__))), "known", "c13_applied_history.json")
+        KNOWN_H = _json.load(open(kfile)) if _os.path.exists(kfile) else []
+        hist_failing = []
+
+        def hist_pipeline(neg, multi):
+            return ProcessingPipeline.from_dict({"transformations": [
+                {"id": "map", "type": "field_name_mapping", "mapping": {"m1": "M1", "m2": ["M2"] if multi else "M2"}},
+                {"id": "pfx", "type": "field_name_prefix", "prefix": "P_", "field_name_conditions": [{"type": "processing_item_applied", "processing_item_id": "map"}], **({"field_name_cond_not": True} if neg else {})}]})
+        exp_name = lambda n, neg: {"m1": "M1", "m2": "M2"}.get(n, n) if (n in ("m1", "m2")) == neg else "P_" + {"m1": "M1", "m2": "M2"}.get(n, n)
+        for neg, multi, fr in itertools.product((False, True), (False, True), ("m1", "u1", ["m2", "u2"], ["u1", "m1"])):
+            ev += 1
+            nontriv += 1
+            corr = {"title": "c", "correlation": {"type": "value_count", "rules": ["ra", "rb"], "timespan": "5m", "group-by": ["al", "m2", "u3"], "aliases": {"al": {"ra": "m1", "rb": "u4"}},
+                                               "condition": {"field": fr, "gte": 10}}}
+            det = {"title": "d", "logsource": {"category": "c"}, "fields": ["m1", "u5"], "detection": {"sel": {"m2": 1, "u6": 2}, "condition": "sel"}}
+            try:
+                pl = hist_pipeline(neg, multi)
+                cr = SigmaCorrelationRule.from_dict(copy.deepcopy(corr))
+                pl.apply(cr)
+                got = {"group_by": list(cr.group_by), "alias": {r.reference: f for r, f in cr.aliases.aliases["al"].mapping.items()}, "condition": cr.condition.fieldref}
+                dr = SigmaRule.from_dict(copy.deepcopy(det))
+                pl.apply(dr)
+                got["fields"] = list(dr.fields)
+                flat = lambda d: [x for di in d.detection_items for x in (flat(di) if hasattr(di, "detection_items") else [di.field])]
+                got["detection"] = flat(dr.detection.detections["sel"])
+            except Exception as e:
+                got = f"{type(e).__name__}: {e}"
+            want = {"group_by": ["al", exp_name("m2", neg), exp_name("u3", neg)], "alias": {"ra": exp_name("m1", neg), "rb": exp_name("u4", neg)},
+                    "condition": [exp_name(x, neg) for x in fr] if isinstance(fr, list) else exp_name(fr, neg), "fields": [exp_name("m1", neg), exp_name("u5", neg)], "detection": [exp_name("m2", neg), exp_name("u6", neg)]}
+            if got != want:
+                bad = got if isinstance(got, str) else {k: (got[k], want[k]) for k in want if got[k] != want[k]}
+                sig = [neg, multi, fr, sorted([k, v[0]] for k, v in bad.items()) if isinstance(bad, dict) else "error"]
+                hist_failing.append(sig)
+                fail("applied-history" + (":known" if sig in KNOWN_H else ""), ("KNOWN-C13H " if sig in KNOWN_H else "") + f"pipeline map(m1->M1, m2->M2) then prefix P_ on the fields {'NOT ' if neg else ''}handled by map, condition field {fr}: (got, expected) {bad}", [neg, multi, fr])
+        if _os.environ.get("C13_DUMP_H"):
+            _json.dump(hist_failing, open(_os.environ["C13_DUMP_H"], "w"))
+        return {"evaluations": ev, "distinct_nontrivial": nontriv, "failures": fails, "failure_counts": seen, "bound": "processing_item_applied history over 5 places of field names x 16 configurations; rule_attribute: 10 attributes x 2..6 values x 8 operators; 23 other rule conditions, 15 detection-item and 11 field-name conditions, each plain and negated",
                 "rule": "distinct (condition, negation); every one is non-trivial", "samples": samples, "exhaustive": True}
